@@ -35,6 +35,7 @@ package fclient
 //@   ensures scheme-is-the-first-word: scheme == ((indexByte(header, 32) >= 0) ? substr(header, 0, indexByte(header, 32)) : header)
 //@   ensures other-schemes-carry-nothing: scheme != "X-Matrix" ==> (origin == "" && destination == "" && key == "" && sig == "")
 //@   ensures no-parameters-no-values: indexByte(header, 32) < 0 ==> (origin == "" && destination == "" && key == "" && sig == "")
+//@   calls Trim only-the-enclosing-quotes-are-stripped-from-a-value: cutset == "\"" && called(TrimSpace) && s == ret(TrimSpace)
 //@   assigns nothing
 
 //@ func VerifyHTTPRequest
@@ -96,13 +97,61 @@ package fclient
 //@   loop 1: invariant !locked(c, "mutex")
 //@   loop 2: invariant !locked(c, "mutex")
 
+// ---------------------------------------------------------------- C19: transport cache (monitor)
+// every cached transport has a recorded time of last use, so the reaper's type assertion on it cannot fail
+
+//@ monitor destinationTripper.transportsMutex
+//@   protects transports
+//@   invariant map-allocated: self.transports != nil
+//@   invariant every-cached-transport-has-a-last-use: forall n string :: n in self.transports ==> (self.transports[n] != nil && isType(self.transports[n].lastUsed.v, "time.Time"))
+
+// the constructors establish the monitor invariants: allocated, empty maps
+//@ func NewDNSCache
+//@   property C19
+//@   nosafety
+//@   ensures monitor-invariant-established: result != nil && result.entries != nil && len(result.entries) == 0 && result.size == size
+
+//@ func newDestinationTripper
+//@   property C19
+//@   nosafety
+//@   ensures monitor-invariant-established: result != nil && result.transports != nil && len(result.transports) == 0
+
+//@ func (*destinationTripper).getTransport
+//@   property C19
+//@   requires f != nil && dialer != nil && !locked(f, "transportsMutex")
+//@   ensures lock-released: !locked(f, "transportsMutex")
+//@   ensures a-transport: result != nil
+
+//@ func (*destinationTripper).reaper
+//@   property C19
+//@   requires f != nil && !locked(f, "transportsMutex")
+//@   ensures lock-released: !locked(f, "transportsMutex")
+//@   loop 1: invariant locked(f, "transportsMutex") && f.transports != nil && (forall n string :: n in f.transports ==> (f.transports[n] != nil && isType(f.transports[n].lastUsed.v, "time.Time")))
+
 // ---------------------------------------------------------------- C16: resolution order
 
 // the HTTP well-known lookup and the SRV lookup are the network; abstract
+// the sentinel errors exist from package initialisation on
+//@ func fclient.init
+//@   property C16
+//@   nosafety
+//@   ensures the-no-well-known-sentinel-is-an-error: errNoWellKnown != nil
+
 //@ func LookupWellKnown
-//@   trusted
+//@   property C16
+//@   nosafety
+//@   results result, err
 //@   ensures delegated-or-error: err == nil ==> result != nil
-//@   assigns nothing
+//@   ensures only-status-200-is-honoured: err == nil ==> (called(Do) && ret(Do, 0).StatusCode == 200)
+//@   ensures names-an-m.server: err == nil ==> result.NewAddress != ""
+//@   ensures declared-size-within-50KiB: err == nil ==> (called(Atoi) && (ret(Atoi, 1) != nil || ret(Atoi, 0) <= 51200))
+//@   calls Atoi of-the-declared-content-length: s == wkHdr(ret(Do, 0), "Content-Length")
+//@   calls ReadAll body-read-through-a-50KiB-limit: r.(*io.LimitedReader).N == 51200 && r.(*io.LimitedReader).R == ret(Do, 0).Body
+//@   ensures lifetime-from-expires-without-max-age: (err == nil && (wkHdr(ret(Do, 0), "Cache-Control") == "" || (forall j int :: 0 <= j && j < len(ret(Split)) ==> !wkIsMaxAge(ret(Split)[j])))) ==> result.CacheExpiresAt == wkExpires(ret(Do, 0))
+//@   ensures max-age-preferred-to-expires: (err == nil && wkHdr(ret(Do, 0), "Cache-Control") != "" && (exists j int :: 0 <= j && j < len(ret(Split)) && wkIsMaxAge(ret(Split)[j]))) ==> (exists j int :: 0 <= j && j < len(ret(Split)) && wkIsMaxAge(ret(Split)[j]) && result.CacheExpiresAt == wkAgeParse(ret(Split)[j])[0] + nowUnix)
+//@   loop 1: invariant 0 <= idx(1) && idx(1) <= len(kvPairs)
+//@   loop 1: invariant (forall j int :: 0 <= j && j < idx(1) ==> !wkIsMaxAge(kvPairs[j])) ==> expiryTimestamp == wkExpires(ret(Do, 0))
+//@   loop 1: invariant (exists j int :: 0 <= j && j < idx(1) && wkIsMaxAge(kvPairs[j])) ==> (exists j int :: 0 <= j && j < idx(1) && wkIsMaxAge(kvPairs[j]) && expiryTimestamp == wkAgeParse(kvPairs[j])[0] + nowUnix)
 //@ func lookupSRV
 //@   trusted
 //@   ensures records-well-formed: forall i int :: 0 <= i && i < len(result[0]) ==> (result[0][i] != nil && len(result[0][i].Target) >= 1)
